@@ -164,12 +164,43 @@ def check_values(repo, res, rule, table, why):
             continue
         n += 1
         v = state[loc]
-        got = v.value if isinstance(v, ast.Constant) else number_of(canon, fr, state, v)
+        _missing = object()
+        got = v.value if isinstance(v, ast.Constant) else (number_of(canon, fr, state, v) or _missing)
         what = '%s starts as %r' % (loc, expected)
-        if got is not None and got == expected and type(got) == type(expected):
+        if got is not _missing and got == expected and type(got) == type(expected):
             res.ok(rule, f, v, what)
         else:
             res.bad(rule, f, v, what, 'after %s.__init__ %s is %s, not %r: %s' % (
                 cls_name, attr, short(ast.unparse(v), 40), expected, why[(cls_name, attr)]))
     if not n:
         raise AnalysisError('no initial value found (%s anchor moved)' % rule)
+
+
+def check_fields_from_params(repo, res, rule, cls_name, table, why):
+    """table: {field: constructor parameter}; the field must be initialised with exactly that
+    argument (a copy idiom of it is accepted for containers)"""
+    canon = Canon(repo)
+    f, fr, state, unknown = init_state(repo, canon, cls_name)
+    cn = canon.class_name(cls_name)
+    n = 0
+    for field, param in sorted(table.items()):
+        loc = '%s.%s' % (cn, field)
+        if param not in f.params:
+            continue
+        if loc not in state:
+            res.bad(rule, f, None, '%s is not initialised from `%s`' % (loc, param),
+                    'the constructor of %s does not store its argument `%s` in %s%s' % (
+                        cls_name, param, field, ' unconditionally' if loc in unknown else ''))
+            continue
+        n += 1
+        v = state[loc]
+        src = copy_source(v)
+        got = src if src is not None else v
+        what = '%s.%s <- constructor argument %s' % (cls_name, field, param)
+        if isinstance(got, ast.Name) and got.id == param:
+            res.ok(rule, f, v, what)
+        else:
+            res.bad(rule, f, v, what, 'after %s.__init__ %s is %s, not the argument `%s` as given: %s' % (
+                cls_name, field, short(ast.unparse(v), 50), param, why))
+    if not n:
+        raise AnalysisError('no field of %s initialised from a parameter found (%s anchor moved)' % (cls_name, rule))
